@@ -1288,8 +1288,7 @@ void rtosc::path_search(const rtosc::Ports& root,
             types[pos]    = 'b';
             if(p.metadata && *p.metadata) {
                 args[pos].b.data = (unsigned char*) p.metadata;
-                auto tmp = rtosc::Port::MetaContainer(p.metadata);
-                args[pos++].b.len  = tmp.length();
+                args[pos++].b.len  = p.meta().length();
             } else {
                 args[pos].b.data = (unsigned char*) NULL;
                 args[pos++].b.len  = 0;
